@@ -8,6 +8,7 @@ import (
 	"io/fs"
 	"math"
 	"os"
+	"path/filepath"
 	"regexp/syntax"
 	"runtime/debug"
 	"sort"
@@ -59,6 +60,10 @@ func custom(k int) map[string]sod.Constraints {
 		return map[string]sod.Constraints{"Z": {Index: true, Unique: true, Lower: true}}
 	case 7:
 		return map[string]sod.Constraints{"R": {Upper: true}}
+	case 8:
+		// BOTH case constraints on one field (only a custom schema or the tag "upper,lower" can say that): they are applied
+		// one after the other, upper then lower, wherever a value is canonicalised - stored values and probes alike
+		return map[string]sod.Constraints{"Z": {Index: true, Upper: true, Lower: true}}
 	}
 	return nil
 }
@@ -215,6 +220,8 @@ type Runner struct {
 	qf      []string
 	hands   map[int]*sod.Search
 	handQ   map[int][]Cmp // the whole chain each kept search value stands for
+	handLim map[int]int   // Limit is a setting OF a search value: the last one asked for stays in force (absent: none)
+	handRev map[int]bool  // ... and so does Reverse
 	nev     int
 	lastMsg string
 	xqs     [][]Cmp
@@ -224,6 +231,8 @@ type Runner struct {
 	pre    *dirSnap
 	fsops  []*vfs.Op
 	fired  bool
+	obsN   int // number of sweeps so far (odd ones use pre-filled Assign targets)
+	faultAt ev // where the injected fault of the current call fell (nil: no fault fired)
 	stop   bool
 	opi    int
 	recs   []Vals
@@ -332,6 +341,7 @@ func (r *Runner) complete(slot int, in Vals) Vals {
 	v["V"] = zeroCode("V")
 	v["W"] = zeroCode("W")
 	v["O"] = 0
+	v["Y"] = zeroCode("Y")
 	v["pl"] = 0
 	for f, c := range in {
 		v[f] = c
@@ -426,6 +436,7 @@ func (r *Runner) open(create bool) string {
 	r.db = sod.Open(r.root)
 	r.hands = map[int]*sod.Search{}
 	r.handQ = map[int][]Cmp{}
+	r.handLim, r.handRev = map[int]int{}, map[int]bool{}
 	r.lastMsg = ""
 	c := "ok"
 	if create {
@@ -577,7 +588,7 @@ func (r *Runner) header(createClass string) ev {
 		switch f {
 		case "K", "S":
 			d["ix"], d["uq"] = 1, 1
-		case "A", "U", "F", "N", "T", "Z", "O":
+		case "A", "U", "F", "N", "T", "Z", "O", "Y":
 			if !r.cfg.Plain {
 				d["ix"] = 1
 			}
@@ -608,6 +619,9 @@ func (r *Runner) header(createClass string) ev {
 		// Z is a plain string field (code = rank in uniZ): its canonicalisation is a table, code -> code of the lower-cased value
 		canon := make([]int, len(uniZ))
 		for i, v := range uniZ {
+			if custom(r.cfg.Cust)["Z"].Upper {
+				v = strings.ToUpper(v)
+			}
 			canon[i] = idxStr(uniZ, strings.ToLower(v))
 		}
 		h["canon"] = ev{"Z": canon}
@@ -626,26 +640,67 @@ func trVCodes() [][]int {
 // call runs one API call with the fault engines armed only for its duration.
 func (r *Runner) call(op *Op, f func()) {
 	crash := op.Crash || r.t.CrashAll
-	r.fired, r.fsops, r.pre = false, nil, nil
+	r.fired, r.fsops, r.pre, r.faultAt = false, nil, nil, nil
 	vfs.Reset()
 	if crash {
 		r.pre = snapshotDir(r.root)
 		vfs.Record(true)
 	}
 	if op.Fault > 0 {
+		vfs.Record(true) // where the fault fell is part of the recording (faultAt)
 		vfs.SetFault(op.Fault, op.Fsub)
 	}
 	defer func() {
 		if op.Fault > 0 {
 			r.fired = vfs.Faulted()
-		}
-		if crash {
+			vfs.Record(false)
+			ops := vfs.Drain()
+			r.faultAt = faultPosition(ops)
+			if crash {
+				r.fsops = ops
+			}
+		} else if crash {
 			vfs.Record(false)
 			r.fsops = vfs.Drain()
 		}
 		vfs.Reset()
 	}()
 	f()
+}
+
+// faultPosition says where in the call's file-system steps the injected fault fell: the kind of the failing step, what
+// it was aimed at, and how many object files / schema files the call had ALREADY replaced or removed by then.
+func faultPosition(ops []*vfs.Op) ev {
+	isObj := func(p string) bool {
+		b := filepath.Base(p)
+		return b != "schema.json" && !strings.HasPrefix(b, ".")
+	}
+	obj, sch := 0, 0
+	for _, o := range ops {
+		if o.Fault {
+			tgt := "other"
+			switch {
+			case filepath.Base(o.Path) == "schema.json" || filepath.Base(o.Path2) == "schema.json",
+				strings.HasPrefix(filepath.Base(o.Path), ".schema.json"), strings.HasPrefix(filepath.Base(o.Path2), ".schema.json"):
+				tgt = "sch" // the schema itself or the temporary file it is written to
+			case o.Kind == "rename" && isObj(o.Path2), o.Kind == "remove" && isObj(o.Path):
+				tgt = "obj"
+			case strings.HasPrefix(filepath.Base(o.Path), "."):
+				tgt = "tmp"
+			}
+			return ev{"kind": o.Kind, "tgt": tgt, "obj": obj, "sch": sch, "mut": o.Mut}
+		}
+		if o.Err || !o.Mut {
+			continue
+		}
+		switch {
+		case o.Kind == "rename" && filepath.Base(o.Path2) == "schema.json":
+			sch++
+		case o.Kind == "rename" && isObj(o.Path2), o.Kind == "remove" && isObj(o.Path):
+			obj++
+		}
+	}
+	return nil
 }
 
 // after runs the fault engines on what the call recorded.
@@ -658,6 +713,9 @@ func (r *Runner) after(op *Op, class string) {
 		// a storage fault was injected into this call: observe the live handle, then recover with a fresh one
 		r.recs, r.recIdx = []Vals{}, map[string]int{}
 		e := ev{"ev": "fault", "k": op.Fault, "sub": op.Fsub, "c": class}
+		if r.faultAt != nil {
+			e["at"] = r.faultAt
+		}
 		e["obs0"] = r.guardObs()
 		r.guardClass(func() error { return nil })
 		rec := r.recovery(r.root)
@@ -1050,6 +1108,8 @@ func probeValue(f string, code int, ptype string) interface{} {
 		v = uniV[code]
 	case "O":
 		v = uniO[code]
+	case "Y":
+		v = uniY[code]
 	default:
 		panic("probeValue " + f)
 	}
@@ -1155,6 +1215,10 @@ func (r *Runner) derive(op *Op) {
 	}
 	full := append(append([]Cmp{}, r.handQ[op.From]...), c)
 	r.hands[op.H], r.handQ[op.H] = s, full
+	if r.handLim != nil {
+		delete(r.handLim, op.H)
+		delete(r.handRev, op.H)
+	}
 	r.emit(ev{"ev": "derive", "h": op.H, "from": op.From, "q": qjson(full), "c": classify(s.Err()), "len": s.Len()})
 }
 
@@ -1162,6 +1226,10 @@ func (r *Runner) eval(op *Op) {
 	s := r.runQuery(op.Q)
 	r.hands[op.H] = s
 	r.handQ[op.H] = op.Q
+	if r.handLim != nil {
+		delete(r.handLim, op.H)
+		delete(r.handRev, op.H)
+	}
 	r.emit(ev{"ev": "eval", "h": op.H, "q": qjson(op.Q), "c": classify(s.Err()), "len": s.Len()})
 }
 
@@ -1170,13 +1238,25 @@ func (r *Runner) collect(op *Op) {
 	if s == nil {
 		panic("collect: unknown handle")
 	}
+	if r.handLim == nil {
+		r.handLim, r.handRev = map[int]int{}, map[int]bool{}
+	}
 	if op.Rev {
 		s = s.Reverse()
+		r.handRev[op.H] = true
 	}
 	if op.Lim >= 0 {
 		s = s.Limit(uint64(op.Lim))
+		r.handLim[op.H] = op.Lim
 	}
-	e := ev{"ev": "collect", "h": op.H, "rev": op.Rev, "lim": op.Lim, "what": op.What, "n": op.N}
+	// what is in force for THIS collection: the settings asked for now or earlier on this search value (a value that
+	// was collected before - with One, with a limit - is collected again under its settings, not under what the
+	// earlier collection used up)
+	rev, lim := r.handRev[op.H], -1
+	if l, ok := r.handLim[op.H]; ok {
+		lim = l
+	}
+	e := ev{"ev": "collect", "h": op.H, "rev": rev, "lim": lim, "what": op.What, "n": op.N}
 	items := [][]interface{}{}
 	add := func(objs ...sod.Object) {
 		for _, o := range objs {
@@ -1209,6 +1289,10 @@ func (r *Runner) collect(op *Op) {
 		}
 	case "assign":
 		var objs []sod.Object
+		if r.opi%2 == 1 {
+			// a target that already holds something (reused from an earlier call): it is replaced, not extended
+			objs = []sod.Object{r.proto(), r.proto()}
+		}
 		err := s.Assign(&objs)
 		e["c"] = classify(err)
 		if err == nil {
